@@ -994,11 +994,113 @@ fn build_init(init: &Init) -> InMemDicomObject {
     read_ds(&stream, TS4[1]).unwrap_or_else(|e| panic!("cannot read the reference stream of the initial state: {e}"))
 }
 
+
+// ---------------------------------------------------------------------------------------------
+// Second search ("shadow"): the tags used as nested steps also exist in the enclosing data set
+// ---------------------------------------------------------------------------------------------
+
+/// Selectors A[i].B[j].leaf with A = (0008,1140) and B a standard, a private and an unknown tag that
+/// the initial states also hold at the top level (as a sequence of 2 items, or as a primitive value)
+/// and inside A's item with other item counts; j in {0,1,2} tells existing / next / out of range
+/// apart at each level. Plus the top-level selectors that change those preconditions.
+fn shadow_selectors() -> Vec<Sel> {
+    let s = |name: &'static str, path: Vec<(T2, u32)>, leaf| Sel { name, path, leaf };
+    let mut v = vec![];
+    for (bn, b) in [("sq2", T_SQ2), ("private", T_PRIV), ("unknown", T_UNK)] {
+        for j in 0..3u32 {
+            let name: &'static str = Box::leak(format!("sq[0].{bn}[{j}].leaf").into_boxed_str());
+            v.push(s(name, vec![(T_SQ, 0), (b, j)], LEAF));
+        }
+        let name: &'static str = Box::leak(format!("sq[1].{bn}[0].leaf").into_boxed_str());
+        v.push(s(name, vec![(T_SQ, 1), (b, 0)], LEAF));
+    }
+    // a standard non-sequence tag as intermediate step (present as a primitive at the top level)
+    v.push(s("sq[0].num[0].leaf", vec![(T_SQ, 0), (T_NUM, 0)], LEAF));
+    v.push(s("sq[0].leaf", vec![(T_SQ, 0)], LEAF));
+    // top level: A and the B's themselves, and the leaf tag
+    v.push(s("sq", vec![], T_SQ));
+    v.push(s("sq2", vec![], T_SQ2));
+    v.push(s("private", vec![], T_PRIV));
+    v.push(s("unknown", vec![], T_UNK));
+    v.push(s("text", vec![], T_TEXT));
+    v
+}
+
+/// quick tier: 5 constructive + 5 non-constructive actions; thorough: all 21
+fn shadow_actions(all: bool) -> Vec<Act> {
+    if all {
+        return actions();
+    }
+    vec![
+        Act::Remove,
+        Act::Empty,
+        Act::SetVr("LO"),
+        Act::Replace(MP::Str("Rep".into())),
+        Act::Truncate(1),
+        Act::Set(MP::Str("Abc".into())),
+        Act::Set(MP::Empty),
+        Act::SetIfMissing(MP::Str("Q".into())),
+        Act::PushStr("P"),
+        Act::PushU16(9),
+    ]
+}
+
+fn shadow_initial_states() -> Vec<Init> {
+    use dicom_core::value::{DicomDate, C};
+    use PrimitiveValue as P;
+    let date = atom((0x0008, 0x0020), "DA", P::Date(C::from_elem(DicomDate::from_ymd(2020, 2, 29).unwrap(), 1)), "std");
+    let leaf = |v: &str| atom(LEAF, "LO", P::Str(v.into()), "std");
+    let seq = |tag: T2, tclass: &'static str, items: Vec<Vec<Node>>| Node::Seq { tag, items, tclass };
+    let sort = |mut n: Vec<Node>| {
+        n.sort_by_key(|x| x.tag());
+        n
+    };
+    // (1a) A missing; every B at the top level as a sequence of 2 items; the leaf tag at the top too
+    let tops_seq = vec![
+        date.clone(),
+        leaf("Top"),
+        seq(T_SQ2, "std", vec![vec![leaf("T0")], vec![]]),
+        Node::Prim(private_creator()),
+        seq(T_PRIV, "private", vec![vec![leaf("P0")], vec![leaf("P1")]]),
+        seq(T_UNK, "unknown", vec![vec![], vec![leaf("U1")]]),
+        atom(T_NUM, "US", P::U16(C::from_elem(0x0102, 1)), "std"),
+    ];
+    // (1b) A missing; private and unknown B at the top level as primitive values
+    let tops_prim = vec![
+        date.clone(),
+        leaf("Top"),
+        Node::Prim(private_creator()),
+        atom(T_PRIV, "LO", P::Str("Pv".into()), "private"),
+        atom(T_UNK, "UN", P::U8(C::from_vec(vec![1, 2])), "unknown"),
+        atom(T_NUM, "US", P::U16(C::from_elem(0x0102, 1)), "std"),
+    ];
+    // (2) A exists; B inside A's item with 1 / 0 / 3 items and at the top level with 2 items each
+    let mut both = tops_seq.clone();
+    both.push(seq(
+        T_SQ,
+        "std",
+        vec![sort(vec![
+            leaf("A0"),
+            seq(T_SQ2, "std", vec![vec![leaf("In")]]),
+            seq(T_PRIV, "private", vec![]),
+            seq(T_UNK, "unknown", vec![vec![], vec![leaf("X1")], vec![]]),
+        ])],
+    ));
+    vec![
+        Init { name: "shadow-top-sequences", nodes: sort(tops_seq), recorded: false },
+        Init { name: "shadow-top-primitives", nodes: sort(tops_prim), recorded: false },
+        Init { name: "shadow-both-levels", nodes: sort(both.clone()), recorded: false },
+        Init { name: "shadow-both-levels-recorded", nodes: sort(both), recorded: true },
+    ]
+}
+
 // ---------------------------------------------------------------------------------------------
 // The search
 // ---------------------------------------------------------------------------------------------
 
 struct Ctx {
+    /// first component of the case ids of this search
+    prefix: &'static str,
     dict: Dict,
     alpha: Alphabet,
     inits: Vec<Init>,
@@ -1010,14 +1112,12 @@ struct Hist {
     ops: Vec<u16>,
 }
 impl Hist {
-    fn id(&self) -> String {
-        format!("h/{}/{}", self.init, self.ops.iter().map(|o| o.to_string()).collect::<Vec<_>>().join("."))
+    fn id(&self, prefix: &str) -> String {
+        format!("{prefix}/{}/{}", self.init, self.ops.iter().map(|o| o.to_string()).collect::<Vec<_>>().join("."))
     }
     fn parse(id: &str) -> Option<Hist> {
         let mut p = id.split('/');
-        if p.next()? != "h" {
-            return None;
-        }
+        p.next()?;
         let init = p.next()?.parse().ok()?;
         let rest = p.next().unwrap_or("");
         let ops = if rest.is_empty() { vec![] } else { rest.split('.').map(|x| x.parse().ok()).collect::<Option<Vec<u16>>>()? };
@@ -1119,7 +1219,7 @@ impl Ctx {
         }
         let mut nh = h.clone();
         nh.ops.push(opi as u16);
-        let case_id = nh.id();
+        let case_id = nh.id(self.prefix);
         if !l.want(&case_id) {
             return None;
         }
@@ -1215,7 +1315,7 @@ impl Ctx {
         let oracle_tree = x_to_ref(&expected);
         for (ti, uid) in TS4.iter().enumerate() {
             for mode in WRITE_MODES {
-                let case_id = format!("{}/w{ti}{}", h.id(), match mode {
+                let case_id = format!("{}/w{ti}{}", h.id(self.prefix), match mode {
                     WriteMode::Default => "d",
                     WriteMode::SetUndefined => "u",
                     WriteMode::NoChange => "n",
@@ -1339,20 +1439,23 @@ fn features(m: &MObj, x: &[XE], h: &Hist, alpha: &Alphabet) -> serde_json::Value
 
 fn main() {
     let check = Check::from_args("C13", Level::ModelChecking);
-    check.set_rule("explicit-state BFS over operation histories: 4 initial objects (empty; nested sequences + bystanders; encapsulated pixel data + character set; the nested object read from a stream with recorded lengths) x alphabet of 12 selectors (text, numeric, (0008,0005), SQ, private, unknown, SQ[0].leaf, SQ[1].leaf, SQ[0].SQ2[0].leaf, private[0].leaf, unknown[0].leaf, pixel data) x 21 actions = 252 operations; depth 2 (quick) / 3 (thorough); a state is the history re-applied to a fresh object, deduplicated by tags+VRs+value kinds+bytes+recorded lengths+bytes written with NoChange; every operation is applied in every distinct state (one transition = one case, distinct by construction), every distinct state is written in 4 TS x 3 writer modes; excluded: pushes beyond multiplicity 3, storing a non-empty primitive value into a sequence attribute");
+    check.set_rule("explicit-state BFS over operation histories: 4 initial objects (empty; nested sequences + bystanders; encapsulated pixel data + character set; the nested object read from a stream with recorded lengths) x alphabet of 12 selectors (text, numeric, (0008,0005), SQ, private, unknown, SQ[0].leaf, SQ[1].leaf, SQ[0].SQ2[0].leaf, private[0].leaf, unknown[0].leaf, pixel data) x 21 actions = 252 operations; depth 2 (quick) / 3 (thorough); a state is the history re-applied to a fresh object, deduplicated by tags+VRs+value kinds+bytes+recorded lengths+bytes written with NoChange; every operation is applied in every distinct state (one transition = one case, distinct by construction), every distinct state is written in 4 TS x 3 writer modes; excluded: pushes beyond multiplicity 3, storing a non-empty primitive value into a sequence attribute. Second search (\"shadow\", depth 2 in both tiers): 4 initial objects in which the tags used as nested steps also exist in the enclosing data set (A missing and B at the top level as a sequence of 2 items for a standard, a private and an unknown tag; the private/unknown B as primitive values; A existing with B inside its item (1/0/3 items) and at the top level (2 items); the same read with recorded lengths; the leaf tag present at every level with different values) x 21 selectors (A[0].B[j].leaf for 3 B x j in 0..2, A[1].B[0].leaf, A[0].US-tag[0].leaf, A[0].leaf, and A, the three B and the leaf at the top level) x 10 actions in quick (5 constructive, 5 non-constructive; a subsample of the 21 actions) / all 21 actions in thorough");
     check.assume("reference model written from the AttributeAction / is_constructive / ApplyOp / PrimitiveValue::extend_* / truncate documentation; number-to-text conversion is Rust's Display; VR of a created attribute is the dictionary VR, else UN (text, Set) or the natural VR of the pushed number type");
     check.assume("vx-ref strict parser and the extracted dictionary table are trusted; values whose kind contradicts their VR after a caller-made type confusion (e.g. SetVr(US) on text) are checked for presence, VR and structural validity only; trailing padding may be NUL or space");
     check.assume("SetVr on a missing attribute may either do nothing or create an empty attribute (documentation open); SetVr on a sequence or pixel sequence is ignored");
-    let ctx = Ctx { dict: Dict::load(), alpha: Alphabet { sels: selectors(), acts: actions() }, inits: initial_states() };
-    let nops = ctx.alpha.n();
-    check.extra("operations", json!(nops));
-    check.extra("initial_states", json!(ctx.inits.len()));
+    let main_ctx = Ctx { prefix: "h", dict: Dict::load(), alpha: Alphabet { sels: selectors(), acts: actions() }, inits: initial_states() };
+    let shadow_ctx = Ctx { prefix: "s", dict: Dict::load(), alpha: Alphabet { sels: shadow_selectors(), acts: shadow_actions(check.thorough()) }, inits: shadow_initial_states() };
+    check.extra("operations", json!(main_ctx.alpha.n()));
+    check.extra("initial_states", json!(main_ctx.inits.len()));
+    check.extra("shadow_operations", json!(shadow_ctx.alpha.n()));
+    check.extra("shadow_initial_states", json!(shadow_ctx.inits.len()));
 
     // replay: one history (transition of its last op, or one written state)
     if check.replaying() {
         let cid = check.replay.as_ref().and_then(|v| v.get("case_id")).and_then(|c| c.as_str()).unwrap_or("").to_string();
         let mut l = check.local();
         let parts: Vec<&str> = cid.split('/').collect();
+        let ctx = if parts.first() == Some(&"s") { &shadow_ctx } else { &main_ctx };
         let hid = parts.iter().take(3).cloned().collect::<Vec<_>>().join("/");
         match Hist::parse(&hid) {
             Some(h) if parts.len() == 4 => ctx.check_state(&mut l, &h),
@@ -1366,6 +1469,25 @@ fn main() {
         check.finish();
     }
 
+    let r1 = search(&check, &main_ctx, check.pick(2, 3));
+    let r2 = search(&check, &shadow_ctx, 2);
+    check.add_states(r1.states + r2.states);
+    check.add_transitions(r1.transitions + r2.transitions);
+    // every transition replays its whole history on the real object, compared with the model
+    check.add_traces(r1.transitions + r2.transitions);
+    check.extra("main_search", r1.json);
+    check.extra("shadow_search", r2.json);
+    check.finish();
+}
+
+struct SearchResult {
+    states: u64,
+    transitions: u64,
+    json: serde_json::Value,
+}
+
+fn search(check: &Check, ctx: &Ctx, depth: usize) -> SearchResult {
+    let nops = ctx.alpha.n();
     // initial states: abstraction of the real object == independent description
     let mut seen: HashSet<u128> = HashSet::new();
     let mut frontier: Vec<Hist> = vec![];
@@ -1383,7 +1505,6 @@ fn main() {
             frontier.push(h);
         }
     }
-    let depth = check.pick(2, 3);
     let mut states = frontier.len() as u64;
     let mut transitions = 0u64;
     let mut per_depth = vec![json!({"depth": 0, "states": frontier.len()})];
@@ -1431,13 +1552,9 @@ fn main() {
             break;
         }
     }
-    check.add_states(states);
-    check.add_transitions(transitions);
-    // every transition replays its whole history on the real object, compared with the model
-    check.add_traces(transitions);
-    check.extra("depth_bound", json!(depth));
-    check.extra("per_depth", json!(per_depth));
-    check.extra("frontier_emptied", json!(fixpoint));
-    check.extra("unexpanded_states_at_bound", json!(frontier.len()));
-    check.finish();
+    SearchResult {
+        states,
+        transitions,
+        json: json!({"depth_bound": depth, "per_depth": per_depth, "frontier_emptied": fixpoint, "unexpanded_states_at_bound": frontier.len(), "operations": nops}),
+    }
 }
